@@ -10,6 +10,8 @@ from ..ref import rfile, rops
 from .. import lib
 
 FN = [('r', r) for r in rops.REDUCERS] + [('f', k) for k in rops.FUNCS]
+STRRED = ['mean', 'sum', 'min', 'max', 'std', 'var', 'median']   # reduce_dim string form
+CONV = [['valid', [.5, .5]], ['same', [.25, .5, .25]], ['full', [1., 1.]]]
 DICTFN = [('d', 'diff'), ('d', 'first')]   # documented dict form {'func1d': f}
 COMMUTING = ('sum', 'min', 'max')
 
@@ -21,7 +23,7 @@ def fn_to_py(fn):
 
 
 def fn_class(fn):
-    return fn[1]
+    return fn[1] if fn[0] != 'c' else 'conv-' + fn[1]
 
 
 def values_ok(obs, exp, in_dtype):
@@ -89,6 +91,11 @@ class Prop(core.Prop):
         if len(dims) == 1:
             for f in DICTFN:
                 yield {'file': group['file'], 'funcs': [[dims[0], list(f)]]}
+            for r in STRRED:
+                yield {'file': group['file'], 'funcs': [[dims[0], ['r', r]]], 'form': 'reduce_dim'}
+            for mode, w in CONV:
+                yield {'file': group['file'], 'funcs': [[dims[0], ['c', mode, w]]],
+                       'form': 'convolve_dim'}
 
     def run_one(self, case):
         real = lib.to_real(rfile.ufile(case['file']))
@@ -103,24 +110,35 @@ class Prop(core.Prop):
             indomain = True
         except rops.OutOfDomain:
             exps, indomain = None, False
-        kw = OrderedDict((d, fn_to_py(f)) for d, f in dimfuncs.items())
+        form = case.get('form', 'method')
+        opname = {'method': 'applyAlongDimensions'}.get(form, form)
         states = [before]
         try:
-            got = real.applyAlongDimensions(**kw)
+            if form == 'method':
+                kw = OrderedDict((d, fn_to_py(f)) for d, f in dimfuncs.items())
+                got = real.applyAlongDimensions(**kw)
+            elif form == 'reduce_dim':
+                from PseudoNetCDF.core._functions import reduce_dim
+                (d_, f_), = dimfuncs.items()
+                got = reduce_dim(real, '%s,%s' % (d_, f_[1]))
+            else:
+                from PseudoNetCDF.core._functions import convolve_dim
+                (d_, f_), = dimfuncs.items()
+                got = convolve_dim(real, ','.join([d_, f_[1]] + [repr(w_) for w_ in f_[2]]))
             raised = None
         except Exception as e:
             got, raised = None, e
         vs = []
         if raised is not None:
             if indomain:
-                vs.append(viol('in-domain-raises', ('applyAlongDimensions', kinds),
+                vs.append(viol('in-domain-raises', (opname, kinds),
                                '%s: %r' % (type(raised).__name__, raised), funcs=fcls,
                                exc=type(raised).__name__))
                 return result('viol', vs, states)
             return result('ood-raise', [], states)
         wf = lib.wellformed(got)
         if wf:
-            vs.append(viol('not-wellformed', ('applyAlongDimensions', kinds), '; '.join(wf),
+            vs.append(viol('not-wellformed', (opname, kinds), '; '.join(wf),
                            funcs=fcls))
         if not indomain:
             return result('ood-returned' if not vs else 'viol', vs, states)
@@ -128,10 +146,13 @@ class Prop(core.Prop):
         exp0 = exps[0]
         states.extend(rfile.canon(e) for e in exps)
         # dimensions and structure
+        if form != 'method':
+            # provenance string written by the functional forms (DESIGN 4.1)
+            snap.attrs.pop('history', None)
         d0 = rfile.file_diff(snap, exp0, dtype=False, attrs=True)
         struct = [d for d in d0 if not (': data ' in d or ': mask ' in d)]
         if struct:
-            vs.append(viol('structure-differs', ('applyAlongDimensions', kinds),
+            vs.append(viol('structure-differs', (opname, kinds),
                            '; '.join(struct)[:1200], funcs=fcls))
         for k, ev in exp0.vars.items():
             if k not in snap.vars:
@@ -142,7 +163,7 @@ class Prop(core.Prop):
                 ('-coord' if k in rf.coords else '')
             if not touched:
                 if rfile.var_diff(k, ov, rf.vars[k]):
-                    vs.append(viol('untouched-variable-changed', ('applyAlongDimensions', kinds),
+                    vs.append(viol('untouched-variable-changed', (opname, kinds),
                                    '; '.join(rfile.var_diff(k, ov, rf.vars[k])), funcs=fcls,
                                    varkind=vkind))
                 continue
@@ -165,7 +186,7 @@ class Prop(core.Prop):
                                                     rfile._short(evv.data[keep]))
             if not ok:
                 clause = 'mask-differs' if why.startswith('mask') else 'values-differ'
-                vs.append(viol(clause, ('applyAlongDimensions', kinds, vkind),
+                vs.append(viol(clause, (opname, kinds, vkind),
                                '%s: %s' % (k, why), funcs=fcls, varkind=vkind))
         # commuting reducers: result independent of the order dimensions are named
         if len(dimfuncs) == 2 and all(f[0] == 'r' and f[1] in COMMUTING for f in dimfuncs.values()):
@@ -175,10 +196,10 @@ class Prop(core.Prop):
                                 cls=rf.cls)
                 d2 = rfile.file_diff(got2, snap)
                 if d2:
-                    vs.append(viol('keyword-order-dependence', ('applyAlongDimensions', kinds),
+                    vs.append(viol('keyword-order-dependence', (opname, kinds),
                                    '; '.join(d2)[:800], funcs=fcls))
             except Exception as e:
-                vs.append(viol('keyword-order-dependence', ('applyAlongDimensions', kinds),
+                vs.append(viol('keyword-order-dependence', (opname, kinds),
                                'reversed order raised %r' % e, funcs=fcls))
         nt = None
         ec = rfile.canon(exp0)
